@@ -2,3 +2,5 @@ pub mod table;
 pub mod iptable;
 pub mod query;
 pub mod recvfilter;
+pub mod hworld;
+pub mod h_traffic;
